@@ -55,3 +55,8 @@ mod index;
 mod lang;
 mod settings;
 mod table;
+
+// Verification hook: compiled only by `cargo kani` (cfg(kani)); see /verif/MANIFEST.json.
+#[cfg(kani)]
+#[path = "/verif/units/kx/compiler/lib.rs"]
+mod verif_kani_lib;
